@@ -873,3 +873,14 @@ Example ex_top_globals :
   | _ => False
   end.
 Proof. vm_compute. repeat split; reflexivity. Qed.
+
+(** * [parse_top] is [do_parse] of the definition with the program name filled in *)
+Definition top_cmd (c0 : cmd) (bin : bytes) : cmd :=
+  match c_bin_name c0 with
+  | Some _ => c0
+  | None => if utf8_valid bin && negb (is_nil bin) then c0 <| c_bin_name := Some bin |> else c0
+  end.
+
+Theorem parse_top_is_do_parse c0 bin rest :
+  is_set s_no_binary_name c0 = false -> parse_top c0 (bin :: rest) = do_parse (top_cmd c0 bin) rest.
+Proof. intros H. unfold parse_top, top_cmd. rewrite H. reflexivity. Qed.
